@@ -23,6 +23,7 @@ package evalfilter
 //@   ensures prepare.ok.ctx: e.context != nil
 //@   ensures @C09 prepare.context: err == nil ==> e.machine != nil && e.machine.context === e.context
 //@   ensures @C20 prepare.machine: err == nil ==> machineOK(e)
+//@   ensures @C18 prepare.fits: err == nil ==> len(e.instructions) <= 65535 && len(e.constants) <= 65536
 //@   panics maybe
 
 //@ func New(script string) (result *Eval)
